@@ -887,7 +887,7 @@ list_sds(int32 infile_id, int32 outfile_id, int32 sd_id, int32 sd_out, list_tabl
         data_type,                  /* number type  */
         rank,                       /* rank */
         n_attrs;                    /* number of attributes */
-    char name[H4_MAX_GR_NAME];      /* name of dataset */
+    char name[H4_MAX_NC_NAME + 1];  /* name of dataset: up to H4_MAX_NC_NAME characters and the NUL */
 
     /* determine the number of data sets in the file and the number of file attributes */
     if (SDfileinfo(sd_id, &n_datasets, &n_file_attrs) == FAIL) {
